@@ -154,3 +154,35 @@ class Check:
         print("%s %s: %d obligations, %d discharged, %d known findings, %d new violations, %.1fs"
               % (self.pid, self.tier, self.obligations, self.discharged, len(known_hit), len(new), time.time() - self.t0))
         return rc
+
+
+class Only:
+    """View of a Check that records only the obligations of the named rules (prefix match): lets one property's check run the part of a
+    sibling's rule set that its own statement includes.  Anchors and floors stay fail-closed."""
+    def __init__(self, ck, prefixes):
+        self._ck, self._pre = ck, tuple(prefixes)
+        self.extra, self.tier, self.pid = ck.extra, ck.tier, ck.pid
+
+    def _mine(self, rule):
+        return rule.startswith(self._pre)
+
+    def unit(self, name):
+        self._ck.unit(name)
+
+    def ob(self, rule, key, ok, msg="", detail=None, sample=None):
+        if self._mine(rule):
+            return self._ck.ob(rule, key, ok, msg, detail, sample)
+        return ok
+
+    def violation(self, rule, key, msg, detail=None):
+        if self._mine(rule):
+            self._ck.violation(rule, key, msg, detail)
+
+    def floor(self, what, count, minimum):
+        self._ck.floor(what, count, minimum)
+
+    def require(self, cond, what):
+        return self._ck.require(cond, what)
+
+    def note(self, s):
+        self._ck.note(s)
